@@ -186,9 +186,10 @@ class C13(core.Check):
         'chosen:variant>=2', 'chosen:specific', 'expect:ACCEPT', 'expect:REJECT',
         'later-candidate-after-nonaccepting-earlier', 'amb:disallowed-pair-mirrored-is-allowed', 'amb:two-specific-entries-accept',
         'amb:key-vs-relative-address', 'amb:decorated-register-vs-numeric', 'amb:implied-operand-entry-vs-shorter-variant',
-        'amb:out-of-range-literal-with-later-accepting-candidate', 'primer:earlier-statement-took-a-later-variant']}
+        'amb:out-of-range-literal-with-later-accepting-candidate', 'primer:earlier-statement-took-a-later-variant', 'amb:listed-combination-named-like-the-disallowed-pair']}
 
-    def gen_isa(self, rng, force_empty=False):
+    def gen_isa(self, rng, force_empty=False, force_dp=False):
+        self._dp_pair = None
         pool = alt_pool(rng)
         names = sorted(pool)
         sets = {}
@@ -225,7 +226,24 @@ class C13(core.Check):
             one = {'bytecode': {'value': 0xA1, 'size': 8}, 'operands': {'count': 1, 'operand_sets': {'list': [sorted(sets)[0]]}}}
             variants = [two, one] if rng.random() < 0.6 else [one, two]
             nv = 0
-        for vi in range(nv):
+        if force_dp and not force_empty:
+            # a barred pair of one operand set that has its own listed combination, named with the pair's operand ids
+            sn_ = sorted(sets)[0]
+            ids_ = sorted(sets[sn_]['operand_values'])
+            i1_, i2_ = rng.sample(ids_, 2) if len(ids_) >= 2 else (ids_[0], ids_[0])
+            if i1_ != i2_:
+                lst_ = {}
+                for oid_ in (i1_, i2_):
+                    c_ = dict(sets[sn_]['operand_values'][oid_])
+                    if 'bytecode' in c_ and 'value' in c_['bytecode']:
+                        c_ = dict(c_, bytecode=dict(c_['bytecode'], value=(c_['bytecode']['value'] + 7) % 32))
+                    lst_[oid_] = c_
+                variants = [{'bytecode': {'value': 0xA0, 'size': 8}, 'operands': {
+                    'count': 2, 'operand_sets': {'list': [sn_, sn_], 'disallowed_pairs': [[i1_, i2_]]},
+                    'specific_operands': {'zeta_first': {'list': lst_}}}}]
+                nv = rng.randrange(0, 2)
+                self._dp_pair = (sn_, [i1_, i2_])
+        for vi in range(len(variants), len(variants) + nv):
             cnt = rng.choice([1, 1, 2])
             ops = {'count': cnt}
             r = rng.random()
@@ -256,6 +274,19 @@ class C13(core.Check):
                         if 'bytecode' in lst[key] and 'value' in lst[key]['bytecode']:
                             lst[key] = dict(lst[key], bytecode=dict(lst[key]['bytecode'], value=31 - vi - 4 * en))
                     entries[ename] = {'list': lst}
+                dp_ = (ops.get('operand_sets') or {}).get('disallowed_pairs')
+                if dp_ and cnt == 2 and dp_[0][0] != dp_[0][1] and rng.random() < 0.6:
+                    # the usual way to give a barred pair its own encoding: a listed combination whose operand ids are exactly
+                    # those of the disallowed pair (the bar concerns the operand-set pattern only)
+                    sl_ = ops['operand_sets']['list']
+                    lst_ = {}
+                    for k_, oid_ in enumerate(dp_[0]):
+                        c_ = dict(sets[sl_[k_]]['operand_values'][oid_])
+                        if 'bytecode' in c_ and 'value' in c_['bytecode']:
+                            c_ = dict(c_, bytecode=dict(c_['bytecode'], value=(c_['bytecode']['value'] + 7) % 32))
+                        lst_[oid_] = c_
+                    entries = dict([('zeta_first', {'list': lst_})] + [(k2_, v2_) for k2_, v2_ in entries.items() if k2_ != 'zeta_first'])
+                    self._dp_named = True
                 ops['specific_operands'] = entries
             variants.append({'bytecode': {'value': 0xA0 + vi, 'size': 8}, 'operands': ops})
         if rng.random() < 0.3:
@@ -344,7 +375,7 @@ class C13(core.Check):
         n = 900 if tier == 'quick' else 15000
         for i in range(n_pre + n):
             rng = core.rng_for(0 if i < n_pre else seed, self.pid, i)
-            isa = self.gen_isa(rng, force_empty=(i < n_pre and i % 10 == 3))
+            isa = self.gen_isa(rng, force_empty=(i < n_pre and i % 10 == 3), force_dp=(i < n_pre and i % 10 == 7))
             texts = operand_texts(rng)
             mirrored = None
             for v in encode.variants_of(isa, 'amb'):
@@ -352,7 +383,15 @@ class C13(core.Check):
                 dp = os_.get('disallowed_pairs')
                 if dp and len(dp[0]) == 2 and dp[0][0] != dp[0][1] and os_['list'][0] == os_['list'][1]:
                     mirrored = (os_['list'][0], dp[0])
-            if mirrored and rng.random() < 0.5:
+            if self._dp_pair and rng.random() < 0.8:
+                sname, (i1, i2) = self._dp_pair
+                ov = isa['operand_sets'][sname]['operand_values']
+                operands = []
+                for oid in (i1, i2):
+                    cand = [t for t in texts if accepts(oid, ov[oid], t, 0) is not None]
+                    operands.append(rng.choice(cand) if cand else rng.choice(texts))
+                mirror_case = False
+            elif mirrored and rng.random() < 0.5:
                 # the mirror image of a disallowed pair is NOT disallowed
                 sname, (i1, i2) = mirrored
                 ov = isa['operand_sets'][sname]['operand_values']
@@ -411,6 +450,11 @@ class C13(core.Check):
                         tags.add('amb:specific-and-set-accept')
                 if info.get('empty_in_candidate') and len(acc) >= 2:
                     tags.add('amb:implied-operand-entry-vs-shorter-variant')
+                if stmt['spec'] is not None:
+                    v_ = encode.variants_of(isa, 'amb')[stmt['variant']]
+                    dp2_ = ((v_.get('operands') or {}).get('operand_sets') or {}).get('disallowed_pairs') or []
+                    if [op_['id'] for op_ in stmt['ops']] in dp2_:
+                        tags.add('amb:listed-combination-named-like-the-disallowed-pair')
                 if info.get('disallowed_hit'):
                     tags.add('amb:disallowed-pair-hit')
                 if mirrored and [op['id'] for op in stmt['ops']] == [mirrored[1][1], mirrored[1][0]] and stmt['spec'] is None:
